@@ -20,6 +20,7 @@ typedef struct http_server_RequestParser RP; typedef struct http_Request Req;
 #define T(x) ((x) != 0)
 enum { S_INIT = 0, S_START = 1, S_HEADS = 2, S_ALL = 3, S_FAIL = 4 };
 static struct v_str g_map_cell; static _Bool g_init0;
+static _Bool g_cl_seen; static size_t g_cl0;       /* a Content-Length header was read in this call; the declared length at entry */
 '''
 EXTERN = r'''
 int StringToMethod(struct v_str *s)
@@ -50,19 +51,24 @@ SPEC = {
 __CPROVER_requires(__CPROVER_is_fresh(self, sizeof(*self)) && self->state_ >= S_INIT && self->state_ <= S_FAIL && data_size < V_MAXSZ && __CPROVER_is_fresh(data_ptr, data_size ? data_size : 1))
 __CPROVER_requires((self->sp_request_ == 0 && self->state_ == S_INIT) || __CPROVER_is_fresh(self->sp_request_, sizeof(Req)))
 __CPROVER_requires(__exc == 0)
-__CPROVER_assigns(__exc, v_find2_hit, g_init0, g_map_cell, self->state_, self->sp_request_, self->content_length_; self->sp_request_ != 0: *self->sp_request_)
+__CPROVER_assigns(__exc, v_find2_hit, g_init0, g_cl_seen, g_cl0, g_map_cell, self->state_, self->sp_request_, self->content_length_; self->sp_request_ != 0: *self->sp_request_)
 __CPROVER_ensures(__exc == 0)                                                        /* total: no exception for any input */
 __CPROVER_ensures(__CPROVER_return_value <= data_size)                               /* never claims more than it was given */
 __CPROVER_ensures(self->state_ >= S_INIT && self->state_ <= S_FAIL && self->sp_request_ != 0)
 /* a request with a declared body length is complete only when the whole body was among the bytes given: the body is part of what is consumed */
 __CPROVER_ensures((__CPROVER_old(self->state_) != S_ALL && self->state_ == S_ALL && self->content_length_ != (size_t)-1) ==> self->content_length_ <= __CPROVER_return_value)
+/* resumable: what an earlier segment declared (or did not declare) as the body length is still in force when parsing resumes in a later segment, unless
+   this segment carries a Content-Length header itself */
+__CPROVER_ensures((__CPROVER_old(self->state_) != S_INIT && !T(g_cl_seen)) ==> self->content_length_ == __CPROVER_old(self->content_length_))
 __CPROVER_ensures((__CPROVER_old(self->state_) == S_INIT && self->state_ == S_FAIL) ==> v_find2_hit == 1)                                /* a start line is rejected only after its terminating CRLF has been seen */
 __CPROVER_ensures((__CPROVER_old(self->state_) == S_INIT && self->state_ == S_INIT) ==> __CPROVER_return_value == 0)       /* incomplete start line: nothing consumed, still waiting */
 ''',
-    ('ghost', 'RP_parse', 'entry'): 'v_find2_hit = 0; g_init0 = (self->state_ == S_INIT);',
+    ('ghost', 'RP_parse', 'entry'): 'v_find2_hit = 0; g_init0 = (self->state_ == S_INIT); g_cl_seen = 0; g_cl0 = self->content_length_;',
+    ('ghost', 'RP_parse', 'before_loop:2'): 'g_cl_seen = 1;',
     ('loop', 'RP_parse', 1): r'''
-__CPROVER_assigns(pos, __exc, v_find2_hit, g_map_cell, self->state_, self->content_length_, self->sp_request_->headers)
-__CPROVER_loop_invariant(pos <= str.size && str.size == data_size && __exc == 0 && self->state_ == S_START && self->sp_request_ != 0 && (T(g_init0) ==> v_find2_hit == 1))
+__CPROVER_assigns(pos, __exc, v_find2_hit, g_cl_seen, g_map_cell, self->state_, self->content_length_, self->sp_request_->headers)
+__CPROVER_loop_invariant(pos <= str.size && str.size == data_size && __exc == 0 && self->state_ == S_START && self->sp_request_ != 0 && (T(g_init0) ==> v_find2_hit == 1)
+  && (g_cl_seen == 0 || g_cl_seen == 1) && ((!T(g_cl_seen) && !T(g_init0)) ==> self->content_length_ == g_cl0))
 __CPROVER_decreases(str.size - pos)
 ''',
     ('loop', 'RP_parse', 2): r'''
